@@ -117,11 +117,14 @@ def gen_pipeline(rng, n_classes=None, alphabet=None, keys=None, kinds=None, by_n
         cid = f'K{i}'
         while True:
             name, group = rng.choice(NAMES), rng.choice(GROUPS)
-            base = 'Task'
+            base, meta_group = 'Task', None
             if modname and rng.random() < bases:
                 base = rng.choice(['ModuleTask', 'DoubleModuleTask'])
                 group = ''
-            slug = slug_of({'name': name, 'group': group, 'base': base}, modname)
+                if rng.random() < 0.4:
+                    # a Meta.task_group on a module-grouped class: ignored by ModuleTask, the group of a DoubleModuleTask
+                    meta_group = rng.choice(['shared', 'g', 'x:y'])
+            slug = slug_of({'name': name, 'group': group, 'base': base, 'meta_group': meta_group}, modname)
             if slug not in used_slugs:
                 used_slugs.add(slug); break
         params = gen_params(rng, rng.randint(0, 3), alphabet, keys)
@@ -167,6 +170,8 @@ def gen_pipeline(rng, n_classes=None, alphabet=None, keys=None, kinds=None, by_n
                 pull.append(rslug)
         classes[cid] = {'name': name, 'group': group, 'base': base, 'params': params, 'inputs': inputs, 'kind': kind,
                         'run_args': run_args, 'pull': pull, 'in_kinds': in_kinds}
+        if meta_group:
+            classes[cid]['meta_group'] = meta_group
     # sometimes the last class (nothing depends on it) yields an empty sequence: a legitimate, 0-byte stored result
     if kinds is None and rng.random() < 0.2:
         classes[f'K{n - 1}']['kind'] = 'genempty'
@@ -180,7 +185,9 @@ def slug_of(c, modname=None):
     if base == 'ModuleTask':
         group = modname.split('.')[-1]
     elif base == 'DoubleModuleTask':
-        group = ':'.join(modname.split('.')[-2:])
+        # MetaDoubleModuleTask.group: Meta.task_group wins over the module-derived group;
+        # MetaModuleTask.group (above) ignores Meta.task_group
+        group = c.get('meta_group') or ':'.join(modname.split('.')[-2:])
     else:
         group = c.get('group') or ''
     return (group + ':' if group else '') + c['name']
